@@ -29,6 +29,9 @@ def configs(tier):
     out = [dict(name='loop_%devents' % k, kind='loop', k=k, weight=1000, chunk=80, chunk_s=30,
                 bound='%d events of any of the four types at symbolic increasing instants, 2 symbolic schedule instants, burn-in None or symbolic' % k,
                 twins=['rebalanced', 'equity_point'])]
+    out.append(dict(name='allocation_table', kind='alloc_table', weight=300, chunk=60, chunk_s=30, validate_every=4,
+                    bound='real get_target_allocations() on 8 equity dates and 4 rebalances whose weight vectors are chosen among three by input booleans (so allocations change and come back), burn-in absent / on a business day / on a weekend',
+                    twins=['allocation_came_back', 'burn_in_cut']))
     out += session.configs_for('C14', tier)
     return out
 
@@ -36,6 +39,8 @@ def configs(tier):
 def make(cfg):
     if cfg['kind'] == 'loop':
         return Loop(cfg, prop='C14')
+    if cfg['kind'] == 'alloc_table':
+        return AllocTable(cfg)
     from vf.props import session
     return session.make(cfg)
 
@@ -197,3 +202,67 @@ def _clone(ts):
         return SymTimestamp(ts.t)
     import pandas as pd
     return pd.Timestamp(ts.value, tz='UTC')
+
+
+class AllocTable(Harness):
+    """get_target_allocations(): one row per equity date, carrying forward the weights of the latest rebalance, cut at burn-in.
+    The weight vector of each rebalance is chosen by input booleans among three vectors, so that every pattern of allocations
+    that change and come back (A, B, A ...) is a path."""
+    prop = 'C14'
+    VECS = [{'EQ:A': 0.8, 'EQ:B': 0.2}, {'EQ:A': 0.3, 'EQ:B': 0.7}, {'EQ:A': 0.5, 'EQ:B': 0.5}]
+    REB = [1, 3, 5, 6]
+
+    def inputs(self, mk):
+        return dict(sel=[(mk.flag('reb%d_a' % j), mk.flag('reb%d_b' % j)) for j in range(len(self.REB))],
+                    burn=(mk.flag('burn_a'), mk.flag('burn_b')))
+
+    def _days(self):
+        from vf.props.session import bdays
+        return bdays('2020-01-06', 8)
+
+    def run(self, i):
+        import pandas as pd
+        from qstrader.trading.backtest import BacktestTradingSession
+        from vf.props.session import ts
+        days = self._days()
+        choice = []
+        for a, b in i['sel']:
+            choice.append(0 if not bool(a) else (1 if not bool(b) else 2))
+        ba, bb = bool(i['burn'][0]), bool(i['burn'][1])
+        burn = None if not ba else (pd.Timestamp('2020-01-08 14:30', tz='UTC') if not bb else pd.Timestamp('2020-01-11 00:00', tz='UTC'))   # Wed / Sat
+        ses = object.__new__(BacktestTradingSession)
+        ses.equity_curve = [(ts(d, 21, 0), 1000.0 + k) for k, d in enumerate(days) if burn is None or ts(d, 21, 0) >= burn]
+        ses.target_allocations = [dict({'Date': ts(days[k], 21, 0)}, **self.VECS[c]) for k, c in zip(self.REB, choice)
+                                  if burn is None or ts(days[k], 21, 0) >= burn]
+        ses.burn_in_dt = burn
+        df = ses.get_target_allocations()
+        rows = [(d, {c: (None if df.loc[d, c] != df.loc[d, c] else float(df.loc[d, c])) for c in df.columns}) for d in df.index]
+        return dict(choice=choice, burn=burn, rows=rows, equity_dates=[t.date() for t, _ in ses.equity_curve],
+                    rebalances=[(r['Date'].date(), {k: v for k, v in r.items() if k != 'Date'}) for r in ses.target_allocations])
+
+    def oracle(self, L, i, out):
+        if out.kind != 'ok':
+            return [('allocation_table_obtainable', L.true)]
+        o = out.value
+        obl = [('one_row_per_equity_date', L.bool([d for d, _ in o['rows']] != o['equity_dates']))]
+        for d, row in o['rows']:
+            prior = [w for (rd, w) in o['rebalances'] if rd <= d]
+            if not prior:
+                obl.append(('%s:no_weights_before_the_first_rebalance' % d, L.bool(any(v is not None for v in row.values()))))
+            else:
+                obl.append(('%s:carries_the_weights_of_the_latest_rebalance' % d, L.bool(any(row.get(k) is None or abs(row[k] - v) > 1e-12 for k, v in prior[-1].items()))))
+        return obl
+
+    def twins(self, L, i, out):
+        if out.kind != 'ok':
+            return []
+        c = out.value['choice']
+        return [('allocation_came_back', L.bool(c[0] == c[2] and c[0] != c[1])), ('burn_in_cut', L.bool(out.value['burn'] is not None))]
+
+    def observe(self, i, out):
+        if out.kind != 'ok':
+            return (out.kind, type(out.value).__name__)
+        return dict(choice=out.value['choice'], rows=[(str(d), r) for d, r in out.value['rows']])
+
+    def describe(self, i, out):
+        return self.observe(i, out) if out.kind == 'ok' else str(out.value)[:300]
